@@ -74,35 +74,31 @@ func (escapeMapping) Span(src []byte, atEOF bool) (n int, err error) {
 func (t escapeMapping) Transform(dst, src []byte, atEOF bool) (nDst, nSrc int, err error) {
 	for nSrc < len(src) {
 		idx := bytes.IndexAny(src[nSrc:], escape)
-		switch idx {
-		case -1:
-			n := copy(dst[nDst:], src[nSrc:])
-			nDst += n
-			nSrc += n
-			if nSrc < len(src) {
-				return nDst, nSrc, transform.ErrShortDst
-			}
-		default:
-			n := copy(dst[nDst:], src[nSrc:nSrc+idx])
-			nDst += n
-			nSrc += n
-			if n != idx-nSrc {
-				return nDst, nSrc, transform.ErrShortDst
-			}
-			c := src[nSrc]
-			n = copy(dst[nDst:], []byte{
-				'\\',
-				"0123456789abcdef"[c>>4],
-				"0123456789abcdef"[c&15],
-			})
-			nDst += n
-			nSrc++
-			if n != 3 {
-				return nDst, nSrc, transform.ErrShortDst
-			}
+		if idx == -1 {
+			idx = len(src) - nSrc
 		}
+		n := copy(dst[nDst:], src[nSrc:nSrc+idx])
+		nDst += n
+		nSrc += n
+		if n != idx {
+			return nDst, nSrc, transform.ErrShortDst
+		}
+		if nSrc == len(src) {
+			break
+		}
+		// Never write a partial escape sequence: if we did the caller would
+		// resume after the escaped byte and the sequence would be corrupted.
+		if len(dst)-nDst < 3 {
+			return nDst, nSrc, transform.ErrShortDst
+		}
+		c := src[nSrc]
+		dst[nDst] = '\\'
+		dst[nDst+1] = "0123456789abcdef"[c>>4]
+		dst[nDst+2] = "0123456789abcdef"[c&15]
+		nDst += 3
+		nSrc++
 	}
-	return
+	return nDst, nSrc, nil
 }
 
 type unescapeMapping struct {
@@ -157,8 +153,13 @@ func (unescapeMapping) Span(src []byte, atEOF bool) (n int, err error) {
 			}
 			return n, transform.ErrShortSrc
 		case len(src) - 2:
-			if atEOF || !ishex(src[n+1]) {
+			if atEOF {
 				return len(src), nil
+			}
+			if !ishex(src[n+1]) {
+				// Not an escape sequence, but the next byte may start one.
+				n++
+				continue
 			}
 			return n, transform.ErrShortSrc
 		}
@@ -174,74 +175,44 @@ func (unescapeMapping) Span(src []byte, atEOF bool) (n int, err error) {
 
 func (t unescapeMapping) Transform(dst, src []byte, atEOF bool) (nDst, nSrc int, err error) {
 	for nSrc < len(src) {
-		idx := bytes.IndexRune(src[nSrc:], '\\')
-
-		switch {
-		case idx == -1 || (idx == len(src[nSrc:])-1 && atEOF):
-			// No unescape sequence exists, or the escape sequence is at the end but
-			// there aren't enough following characters to make it valid, so copy to
-			// the end.
-			n := copy(dst[nDst:], src[nSrc:])
-			nDst += n
-			nSrc += n
-			if nSrc < len(src) {
-				return nDst, nSrc, transform.ErrShortDst
-			}
-			return
-		case idx == len(src[nSrc:])-1:
-			// The last character is the escape char and this isn't the EOF
-			n := copy(dst[nDst:], src[nSrc:nSrc+idx])
-			nDst += n
-			nSrc += n
-			if n != idx {
-				return nDst, nSrc, transform.ErrShortDst
-			}
-			return nDst, nSrc, transform.ErrShortSrc
-		case idx == len(src[nSrc:])-2:
-			if atEOF || !ishex(src[nSrc+idx+1]) {
-				n := copy(dst[nDst:], src[nSrc:])
-				nDst += n
-				nSrc += n
-				if nSrc < len(src) {
-					return nDst, nSrc, transform.ErrShortDst
-				}
-				return
-			}
-			n := copy(dst[nDst:], src[nSrc:nSrc+idx])
-			nDst += n
-			nSrc += n
-			if n != idx {
-				return nDst, nSrc, transform.ErrShortDst
-			}
-			return nDst, nSrc, transform.ErrShortSrc
+		idx := bytes.IndexByte(src[nSrc:], '\\')
+		if idx == -1 {
+			idx = len(src) - nSrc
 		}
-
-		if shouldUnescape(src[nSrc+idx+1 : nSrc+idx+3]) {
-			n := copy(dst[nDst:], src[nSrc:nSrc+idx])
-			nDst += n
-			nSrc += n
-			if n != idx {
-				return nDst, nSrc, transform.ErrShortDst
-			}
-			if n == 0 {
-				n++
-			}
-			n = copy(dst[nDst:], []byte{
-				unhex(src[nSrc+n])<<4 | unhex(src[nSrc+n+1]),
-			})
-			nDst += n
-			nSrc += 3
-			if n != 1 {
-				return nDst, nSrc, transform.ErrShortDst
-			}
-			continue
-		}
-		n := copy(dst[nDst:], src[nSrc:nSrc+idx+1])
+		n := copy(dst[nDst:], src[nSrc:nSrc+idx])
 		nDst += n
 		nSrc += n
-		if n != idx+1 {
+		if n != idx {
 			return nDst, nSrc, transform.ErrShortDst
 		}
+		if nSrc == len(src) {
+			break
+		}
+
+		// src[nSrc] is the escape char.
+		rest := src[nSrc:]
+		if len(rest) >= 3 && shouldUnescape(rest[1:3]) {
+			if nDst == len(dst) {
+				return nDst, nSrc, transform.ErrShortDst
+			}
+			dst[nDst] = unhex(rest[1])<<4 | unhex(rest[2])
+			nDst++
+			nSrc += 3
+			continue
+		}
+		if len(rest) < 3 && !atEOF && (len(rest) == 1 || ishex(rest[1])) {
+			// This may be the start of an escape sequence that is completed by
+			// the next chunk.
+			return nDst, nSrc, transform.ErrShortSrc
+		}
+		// A lone escape char that is not part of a valid sequence: copy it and
+		// continue with the next byte (which may itself start a sequence).
+		if nDst == len(dst) {
+			return nDst, nSrc, transform.ErrShortDst
+		}
+		dst[nDst] = '\\'
+		nDst++
+		nSrc++
 	}
-	return
+	return nDst, nSrc, nil
 }
